@@ -169,6 +169,7 @@ pub fn analyse(log: &[Rec], fams: &[Fam], meta: &Meta) -> Analysis {
     let mut bind_replied: HashMap<u64, String> = HashMap::new();
     let mut bind_ret_seen: HashMap<u64, u32> = HashMap::new();
     let mut teardown = false;
+    let mut fault_first = false;
     let mut task_ret_at: [Option<usize>; 2] = [None, None];
     let mut flows_seen: std::collections::HashSet<(usize, u32)> = std::collections::HashSet::new();
     let mut conn_end = false;
@@ -190,6 +191,9 @@ pub fn analyse(log: &[Rec], fams: &[Fam], meta: &Meta) -> Analysis {
                 if *ep == 255 {
                     cx.fail(Fam::Panic, i, format!("panic|{}", what.split(':').nth(1).unwrap_or("").trim().chars().take(60).collect::<String>()), format!("a task panicked: {what}"));
                 } else {
+                    if !conn_end && !teardown {
+                        fault_first = true;
+                    }
                     conn_end = true;
                     conn_end_ep[*ep as usize] = true;
                     conn_end_ep[1 - *ep as usize] = true;
@@ -198,7 +202,7 @@ pub fn analyse(log: &[Rec], fams: &[Fam], meta: &Meta) -> Analysis {
             Ev::TaskRet { ep, res } => {
                 task_ret_at[*ep as usize] = Some(i);
                 if *ep == 0 {
-                    if let Some(want) = &meta.expect_task_ret {
+                    if let (Some(want), true) = (&meta.expect_task_ret, fault_first) {
                         if !res.starts_with(want.as_str()) {
                             cx.fail(Fam::End, i, format!("task-result|{res}|want={want}"), format!("ep0: the connection task returned {res}; the injected cause prescribes {want}"));
                         }
